@@ -20,6 +20,14 @@ class FnRef:
         s.name = name
 
 
+class ExtFn:
+    """a function item that is not part of the dumped MIR (e.g. `char::is_whitespace` passed as a pattern)"""
+    __slots__ = ('name',)
+
+    def __init__(s, name):
+        s.name = name
+
+
 class PyFn:
     """a harness-provided function value (e.g. a custom word splitter)"""
     __slots__ = ('fn', 'tag')
@@ -510,6 +518,8 @@ class Interp:
             return clo_v.fn(self, *args)
         if isinstance(clo_v, FnRef):
             return self.run(clo_v.name, list(args))
+        if isinstance(clo_v, ExtFn):
+            return self.call(clo_v.name, list(args))
         f = self.prog.closure_fn.get(clo_v.name)
         if f is None:
             raise Unsupported('closure body not found: %r' % (clo_v.name,))
@@ -773,6 +783,8 @@ class Interp:
             if f.kind == 'fn':
                 return FnRef(f.name)
             return self.exec_fn(f, [])
+        if self.models is not None and self.models.lookup(self, c, n) is not None:
+            return ExtFn(c)
         raise Unsupported('const ' + c)
 
     # ------------------------------------------------------------ statements
